@@ -345,8 +345,8 @@ OPS = {
     'ADD_INTS': (b'\x0e\x02', lambda a, b: [a + b]),
     'SUBTRACT_INTS': (b'\x0f\x02', lambda a, b: [a - b]),
     'MULT_INTS': (b'\x10\x02', lambda a, b: [a * b]),
-    'DIV_INTS': (b'\x12', lambda a, b: None if b == 0 else sorted({a // b, -((-a) // b) if (a < 0) != (b < 0) else a // b})),
-    'MOD_INTS': (b'\x14', lambda a, b: None if b == 0 else sorted({a % b, a - b * (-((-a) // b) if (a < 0) != (b < 0) else a // b)})),
+    'DIV_INTS': (b'\x12', lambda a, b: None if b == 0 else [a // b]),      # floored (standing decision, DESIGN 2.4)
+    'MOD_INTS': (b'\x14', lambda a, b: None if b == 0 else [a % b]),
     'LESS': (b'\x3e', lambda a, b: [a < b]),
     'LESS_OR_EQUAL': (b'\x3f', lambda a, b: [a <= b]),
 }
@@ -473,5 +473,5 @@ def meta(tier, seed):
         assumptions=['the "random integers up to 8192 bits" clause is replaced by complete structured '
                      'families (two-bit, run-of-ones, binade-edge top words at every byte length)',
                      'NaN: sign and payload must round-trip; only the quiet bit of a signalling NaN may change (host float32<->double conversion)',
-                     'DIV/MOD on mixed-sign operands: floor or truncation both accepted'],
+                     'DIV/MOD on mixed-sign operands: floored (Python // and %), the convention of the pinned implementation (standing decision, DESIGN 2.4)'],
     )
